@@ -731,6 +731,63 @@ func checkC02(e *Env, r *Report) {
 		fullB.Drop()
 	}
 	r.Coverage["alone_vs_whole_comparisons"] = nNb
+	// (4) builds that cannot succeed: a directive that names a profile the build does not hold (missing, or renamed
+	// by the overwrite task of an ABI 4 build) must fail the same way on every run
+	{
+		prof := func(name, body string) string {
+			return "abi <abi/4.0>,\n\ninclude <tunables/global>\n\n@{exec_path} = @{bin}/" + name + "\nprofile " + name + " @{exec_path} {\n  include <abstractions/base>\n\n  @{exec_path} mr,\n\n" + body + "  include if exists <local/" + name + ">\n}\n"
+		}
+		scen := map[string]map[string]string{
+			"exec-overwritten": {"dists/overwrite": "# overwrite\nvover\n", "apparmor.d/groups/vo/vover": prof("vover", ""), "apparmor.d/groups/vo/vother": prof("vother", ""),
+				"apparmor.d/groups/vo/vhost": prof("vhost", "  #aa:exec vover vother\n\n")},
+			"exec-missing":  {"apparmor.d/groups/vo/vother": prof("vother", ""), "apparmor.d/groups/vo/vhost": prof("vhost", "  #aa:exec vnothere vother\n\n")},
+			"stack-missing": {"apparmor.d/groups/vo/vother": prof("vother", "  /etc/o r,\n\n"), "apparmor.d/groups/vo/vhost": prof("vhost", "  #aa:stack vother vnothere\n\n")},
+		}
+		names := []string{}
+		for n := range scen {
+			names = append(names, n)
+		}
+		sort.Strings(names)
+		runs := 24
+		if e.Tier == "thorough" {
+			runs = 64
+		}
+		nFail := 0
+		for _, n := range names {
+			mini, err := e.MiniSrc("mini-fail-"+n, scen[n])
+			if err != nil {
+				r.Fatal = err.Error()
+				return
+			}
+			outcomes := make([]string, runs)
+			parallel(runs, 8, func(i int) {
+				b := e.RunPrebuild(Cfg{"arch", 4, "4.1", "complain", false}, BuildOpts{Src: mini, Tag: fmt.Sprint("fail", n, i), NoCache: true})
+				defer b.Drop()
+				h := hashTree(b.Out)
+				ks := []string{}
+				for k, v := range h {
+					ks = append(ks, k+"="+v)
+				}
+				sort.Strings(ks)
+				msg := "built"
+				if b.Err != nil {
+					msg = "failed"
+					for _, l := range strings.Split(reANSI.ReplaceAllString(b.Stdout, ""), "\n") {
+						if strings.Contains(l, "panic: ") || strings.Contains(l, "Error: ") {
+							msg = "failed: " + strings.TrimSpace(l)
+							break
+						}
+					}
+				}
+				outcomes[i] = msg + " " + shaS(strings.Join(ks, "\n"))
+			})
+			nFail += runs
+			for i := 1; i < runs; i++ {
+				recs = append(recs, map[string]any{"ev": "same", "id": fmt.Sprintf("cannot-build|%s|run%d", n, i), "what": "two runs of a build that names a profile it does not hold (" + n + ") end differently", "a": outcomes[0], "b": outcomes[i]})
+			}
+		}
+		r.Coverage["cannot_build_runs"] = nFail
+	}
 	// (3) the configuration the tool works out by itself: without $DISTRIBUTION the distribution comes from the
 	// host's os-release; the same os-release must give the same run every time (outcome, output, message)
 	if recsD, n, skipped := detectPhase(e, r); skipped != "" {
